@@ -753,3 +753,137 @@ Example fin_layout_example :
   [44; 0; 23; 147; 1; 2; 255; 255; 255; 255; 255; 255; 5; 69;
    1; 10; 32; 1; 97; 3; 98; 195; 164; 2; 1; 2;  1; 3; 1; 0; 0;  6; 2; 1; 2].
 Proof. vm_compute. reflexivity. Qed.
+
+(* ================= C10: totality (never IndexError / struct.error / fuel) ================= *)
+
+Lemma py_get_in_range (d : bytes) i : 0 <= i < len d -> exists b, py_get d i = Ok b.
+Proof.
+  intros H. unfold py_get. destruct (i <? 0) eqn:E; [lia|].
+  destruct (nth_error d (Z.to_nat i)) as [b|] eqn:N; [eexists; reflexivity|].
+  apply nth_error_None in N. unfold len in H. lia.
+Qed.
+
+Lemma fsresp_packet_len_pos r : 5 <= fsresp_packet_len r.
+Proof.
+  unfold fsresp_packet_len, common_packet_len, lv_packet_len.
+  pose proof (len_nonneg (fp_first r)). pose proof (len_nonneg (fp_second r)). pose proof (len_nonneg (fp_msg r)).
+  destruct (is_two_name (fp_action r)); lia.
+Qed.
+
+Lemma tlv_packet_len_pos t : 2 <= tlv_packet_len t.
+Proof. unfold tlv_packet_len. pose proof (len_nonneg (tlv_value t)). lia. Qed.
+
+Lemma fin_calc_len_total p : ok_or_documented (fin_calc_len p).
+Proof.
+  unfold fin_calc_len, fdir_set_param_len. rewrite hdr_set_dlen_spec.
+  destruct (_ <=? 65535); cbn [bind]; [exact I|reflexivity].
+Qed.
+
+(* the loop: every outcome is a value or a documented error; in particular the fuel
+   len(rest)+1 is never exhausted (fin_tlv_loop_fuel_ok) and no index is out of range *)
+Lemma fin_tlv_loop_total fuel : forall might rest idx acc fl,
+  0 <= idx < len rest -> (Z.to_nat (len rest - idx) <= fuel)%nat ->
+  ok_or_documented (fin_tlv_loop fuel might rest idx acc fl).
+Proof.
+  induction fuel as [|fuel IH]; intros might rest idx acc fl Hi Hf; [lia|].
+  cbn [fin_tlv_loop]. destruct (py_get_in_range rest idx Hi) as (code & ->). cbn [bind].
+  destruct (code =? TLV_FILESTORE_RESPONSE).
+  - pose proof (fsresp_unpack_total (slice_from rest idx)) as T.
+    destruct (fsresp_unpack (slice_from rest idx)) as [r|e]; [|exact T]. cbn [bind].
+    pose proof (fsresp_packet_len_pos r).
+    destruct (idx + fsresp_packet_len r >=? len rest) eqn:G; [exact I|]. apply IH; lia.
+  - destruct (code =? TLV_ENTITY_ID); [|reflexivity].
+    destruct (negb might); [reflexivity|].
+    pose proof (wrap_unpack_total TLV_ENTITY_ID (slice_from rest idx)) as T. fold entity_unpack in T.
+    destruct (entity_unpack (slice_from rest idx)) as [t|e]; [|exact T]. cbn [bind].
+    pose proof (tlv_packet_len_pos t).
+    destruct (idx + tlv_packet_len t >=? len rest) eqn:G; [exact I|]. apply IH; lia.
+Qed.
+
+Corollary fin_tlv_loop_fuel_ok might rest acc fl : 0 < len rest ->
+  fin_tlv_loop (S (length rest)) might rest 0 acc fl <> Err EFuel.
+Proof.
+  intros H. pose proof (fin_tlv_loop_total (S (length rest)) might rest 0 acc fl ltac:(lia) ltac:(unfold len; lia)) as T.
+  intros E. rewrite E in T. discriminate T.
+Qed.
+
+Lemma fin_unpack_tlvs_total p rest : 0 < len rest -> ok_or_documented (fin_unpack_tlvs p rest).
+Proof.
+  intros H. unfold fin_unpack_tlvs. apply bind_documented.
+  - apply fin_tlv_loop_total; [lia|unfold len; lia].
+  - intros [resps fault] _. apply bind_documented; [apply fin_calc_len_total|].
+    intros p' _. destruct fault; [apply fin_calc_len_total|exact I].
+Qed.
+
+Theorem fin_unpack_total d : wf_bytes d -> ok_or_documented (fin_unpack d).
+Proof.
+  intros W. unfold fin_unpack. destruct fin_empty_ok as (e0 & ->). cbn [bind].
+  pose proof (fdir_unpack_total d W) as T.
+  destruct (fdir_unpack d) as [f|e] eqn:U; [|exact T]. clear T. cbn [bind].
+  destruct (fdir_unpack_inv d f W U) as (FV & _ & Lhl & _).
+  destruct (hdr_valid_packet_len _ (proj1 FV)) as (Hh & Hp).
+  assert (P2 : 2 <= hdr_packet_len (fd_hdr f)) by lia.
+  destruct (hdr_verify_length_and_checksum (fd_hdr f) d) as [pl|e] eqn:Ve.
+  2:{ destruct (hdr_verify_err _ _ _ P2 Ve) as [-> | ->]; reflexivity. }
+  destruct (hdr_verify_accept _ _ _ P2 Ve) as (-> & Lpl & _). cbn [bind].
+  unfold fdir_packet_len. destruct (hdr_packet_len (fd_hdr f) >? len d); [reflexivity|].
+  set (e := if cf_crc (h_conf (fd_hdr f)) =? CRC_WITH_CRC then hdr_packet_len (fd_hdr f) - 2 else hdr_packet_len (fd_hdr f)).
+  assert (Le : e <= len d) by (unfold e; destruct (_ =? _); lia).
+  destruct (fdir_header_len f >=? e) eqn:G; [reflexivity|].
+  pose proof (fdir_header_len_range f FV) as Rh.
+  destruct (py_get_in_range d (fdir_header_len f) ltac:(lia)) as (b & ->). cbn [bind].
+  unfold condition_code_of_int. destruct (is_condition_code _); [|reflexivity]. cbn [bind].
+  unfold delivery_code_of_int. destruct (_ || _); [|reflexivity]. cbn [bind].
+  unfold file_status_of_int. destruct (_ || _); [|reflexivity]. cbn [bind].
+  destruct (e >? fdir_header_len f + 1) eqn:G2; [|exact I].
+  apply fin_unpack_tlvs_total. rewrite slice_len; lia.
+Qed.
+
+(* C10: every strict prefix of a packed Finished PDU is refused with a documented error *)
+Theorem fin_prefix_rejected c q n : fin_valid c q -> (n < length (fin_layout c q))%nat ->
+  exists e, fin_unpack (firstn n (fin_layout c q)) = Err e /\ documented e = true.
+Proof.
+  intros V L.
+  assert (WL : wf_bytes (fin_layout c q)).
+  { unfold fin_layout. rewrite with_crc_split. apply wf_bytes_app. split; [apply fin_pre_wf; exact V|apply crc_tail_wf]. }
+  pose proof (fin_unpack_total _ (wf_bytes_firstn n _ WL)) as T.
+  destruct (fin_unpack (firstn n (fin_layout c q))) as [p|e] eqn:U; [exfalso|exists e; split; [reflexivity|exact T]].
+  (* an accepted prefix would have to be at least as long as the length its own header declares *)
+  pose proof (fin_fdir_valid c q V) as FV.
+  set (f := fdir_of (conf_set_dir c 1) DT_FINISHED (fin_dlen c q - 1)) in *.
+  pose proof (fin_layout_len c q V) as LL.
+  assert (E : fin_layout c q = fdir_layout f ++ fin_body q ++ crc_tail c (hdr_layout (fin_header c q) ++ [D_FINISHED] ++ fin_body q)).
+  { unfold fin_layout. rewrite with_crc_split.
+    assert (X : hdr_layout (fin_header c q) ++ [D_FINISHED] = fdir_layout f).
+    { unfold fdir_layout, f, fdir_of, fin_header. cbn [fd_hdr fd_type]. pose proof (fin_dlen_nonneg c q).
+      replace (fin_dlen c q - 1 + 1) with (fin_dlen c q) by lia. reflexivity. }
+    rewrite (app_assoc (hdr_layout _) [D_FINISHED]), X, <- app_assoc. reflexivity. }
+  pose proof (fdir_layout_len f FV) as HL.
+  unfold fin_unpack in U. destruct fin_empty_ok as (e0 & Ee). rewrite Ee in U. cbn [bind] in U.
+  destruct (Nat.lt_ge_cases n (length (fdir_layout f))) as [Sh | Lg].
+  - rewrite E in U. destruct (fdir_unpack_short_prefix f n _ FV ltac:(rewrite E in WL; apply wf_bytes_app in WL; apply WL) Sh) as (e & Ue & _).
+    rewrite Ue in U. discriminate U.
+  - assert (Fn : firstn n (fin_layout c q) = fdir_layout f ++ firstn (n - length (fdir_layout f)) (fin_body q ++ crc_tail c (hdr_layout (fin_header c q) ++ [D_FINISHED] ++ fin_body q))).
+    { rewrite E at 1. rewrite firstn_app. rewrite firstn_all2 by lia. reflexivity. }
+    rewrite Fn in U. rewrite fdir_unpack_layout in U; [|exact FV|apply wf_bytes_firstn; rewrite E in WL; apply wf_bytes_app in WL; apply WL].
+    cbn [bind] in U. rewrite hdr_verify_short in U; [discriminate U|].
+    rewrite <- Fn. unfold len at 1. rewrite firstn_length.
+    unfold hdr_packet_len, f, fdir_of. cbn [fd_hdr h_dlen]. unfold len in LL.
+    unfold hdr_header_len, fin_header in LL. cbn [h_conf] in LL. unfold hdr_header_len. cbn [h_conf]. lia.
+Qed.
+
+(* C04: an accepted CRC-flagged PDU has CRC residue zero over its declared length *)
+Theorem fin_accept_needs_crc0 d p : wf_bytes d -> fin_unpack d = Ok p ->
+  exists h, hdr_unpack d = Ok h /\
+    (cf_crc (h_conf h) = 1 -> crc16 (firstn (Z.to_nat (hdr_packet_len h)) d) = 0) /\
+    hdr_packet_len h <= len d.
+Proof.
+  intros W U. unfold fin_unpack in U. destruct fin_empty_ok as (e0 & Ee). rewrite Ee in U. cbn [bind] in U.
+  destruct (fdir_unpack d) as [f|e] eqn:Uf; [|discriminate U]. cbn [bind] in U.
+  destruct (fdir_unpack_inv d f W Uf) as (FV & Uh & _).
+  destruct (hdr_valid_packet_len _ (proj1 FV)) as (_ & Hp).
+  assert (P2 : 2 <= hdr_packet_len (fd_hdr f)) by lia.
+  destruct (hdr_verify_length_and_checksum (fd_hdr f) d) as [pl|e] eqn:Ve; [|discriminate U].
+  destruct (hdr_verify_accept _ _ _ P2 Ve) as (-> & Lpl & Cr).
+  exists (fd_hdr f). split; [exact Uh|]. split; [exact Cr|exact Lpl].
+Qed.
